@@ -242,6 +242,8 @@ def draw_profiles(rng, kind, nz_layers, zm, closures=("MOST", "MOSTM", "CONSTANT
         ustar = float(ws * rng.uniform(0.06, 0.14))
         L = float(rng.choice([-1, 1]) * 10 ** rng.uniform(1.0, 4.0))
         kw = dict(ustar=ustar, mol=L, closure=closure)
+        if closure != "OAAHOC" and not (zm * math.exp(-KAPPA * ws / ustar + float(psi_m(zm / L))) < 0.3 * zm):
+            raise ValueError("derived z0 not below z_m")
         if closure == "OAAHOC":
             kw["tke"] = float(rng.uniform(0.3, 2.0))
         z, prof = vertical_profiles(nz_layers, zm, (u, v), **kw)
@@ -316,8 +318,14 @@ def draw_setup(
             modes = (mx, my)
         nzl = int(rng.integers(nzmin, nzmax + 1))
         kind = str(rng.choice(list(profile_kinds)))
-        z, prof, pdesc = draw_profiles(rng, kind, nzl, zm)
-        if not (np.all(np.isfinite(z)) and np.all(np.diff(z) > 0) and all(np.all(np.isfinite(p)) for p in prof)):
+        try:
+            with np.errstate(all="ignore"):
+                z, prof, pdesc = draw_profiles(rng, kind, nzl, zm)
+        except (IndexError, ValueError, FloatingPointError):
+            # derived roughness length not below the measurement height: outside every property's quantifier
+            skipped += 1
+            continue
+        if not (len(z) >= 3 and np.all(np.isfinite(z)) and np.all(np.diff(z) > 0) and all(np.all(np.isfinite(p)) for p in prof) and np.all(prof[4] > 0)):
             skipped += 1
             continue
         kx, ky, _, _ = wavenumbers(nx, ny, dx, dy, px, py, modes)
